@@ -7,6 +7,8 @@ use std::task::Poll;
 /// owned, cloneable leaf
 #[derive(Clone, Debug, PartialEq, Eq)]
 pub struct C(pub u32);
+/// argument for methods whose result borrows from a parameter
+pub static PARAM: C = C(0);
 /// owned leaf that is NOT Clone
 #[derive(Debug, PartialEq, Eq)]
 pub struct N(pub u32);
